@@ -228,7 +228,7 @@ func (c *Ctx) mapScanIsLookup(fn *ssa.Function, rg *ssa.Range) bool {
 					return false
 				}
 				guarded := fa.allHold(ui, func(s *State) bool {
-					for _, f := range s.facts {
+					for _, f := range s.factList() {
 						if f.Kind == aTR && f.Val && f.T.K == "B" && f.T.S == "==" {
 							for _, side := range []*Term{f.T.A, f.T.B} {
 								for _, mv := range side.vals {
@@ -251,7 +251,7 @@ func (c *Ctx) mapScanIsLookup(fn *ssa.Function, rg *ssa.Range) bool {
 						pred := ui.Block().Preds[i]
 						last := pred.Instrs[len(pred.Instrs)-1]
 						if !fa.allHold(last, func(s *State) bool {
-							for _, f := range s.facts {
+							for _, f := range s.factList() {
 								if f.Kind == aTR && f.Val && f.T.K == "B" && f.T.S == "==" {
 									for _, side := range []*Term{f.T.A, f.T.B} {
 										for _, mv := range side.vals {
